@@ -231,7 +231,8 @@ CHECKS = {
          "reply that arrives after its request gave up must not stop the stream (GiveUp / DemuxLive in the model). A schedule that "
          "fails among the parallel schedules is run again on its own before it is reported; what the library's own log identifies "
          "(dropped frames: the known finding; a disconnect frame from the dial's cancellation watcher after a successful dial) is not "
-         "subject to that.",
+         "subject to that. AgwpeReg.tla: registrations on a demux while it delivers (NoEmbrace; the code before fix 4ae63af as "
+         "counterexample); the malformed-input case connect-during-close runs in an oversubscribed batch.",
     note="Internal goroutine interleavings of the library are not controlled (no gates); paced schedules stay inside the envelope. "
          "Frame loss on bursts is a recorded known finding (design-level flow control). Real-time polls make each schedule cost seconds.",
     technique="TLA+ pipeline model (design, envelope) + simulated TNC schedules on real code judged by TLC trace validation",
